@@ -118,5 +118,100 @@ def check(tier="quick", seed=0, repo="/repo"):
                 res["by_backend"]["ground"] = res["by_backend"].get("ground", 0) + 1
             else:
                 res["open"][name] = dict(kind="ground", status="refuted", text=f"javascript type_map[{n!r}] = {got!r}; parser format {fmt!r}", reason="ground mismatch", candidates=[])
+    check_emitters(res, repo)
     res["seconds"] = round(time.time() - t0, 3)
     return res
+
+
+# ---------------------------------------------------------------------------------------------------------
+# T2 (attribute agreement): every back end prints each kind of model item from the same attributes of the
+# parser model.  For each emitter function the set of attributes read on the item parameter (and on the loop
+# variable over <item>.fields) is computed from the AST; the property statement fixes which attributes carry the
+# wire format (name + value for constants and ids, name / type_name / length for fields, ...).  A back end whose
+# emitter does not read a required attribute at all is a refutation; one that reads it through another route
+# (not on the parameter) is undecided.
+EMITTERS = {
+    # kind: (required attributes, {backend file: [candidate function names]})
+    "constant": ({"name", "value"}, {"python.py": ["generate_constant"], "c99.py": ["generate_constant"], "javascript.py": ["generate_constant"], "matlab.py": ["generate_constant"]}),
+    "string_constant": ({"name", "value"}, {"python.py": ["generate_string_constant"], "c99.py": ["generate_string_constant"], "javascript.py": ["generate_string_constant"],
+                                              "matlab.py": ["generate_constant_string", "generate_string_constant"]}),
+    "msg_type_id": ({"name", "value"}, {"python.py": ["generate_msg_type_id"], "c99.py": ["generate_msg_type_id"], "javascript.py": ["generate_msg_type_id"], "matlab.py": ["generate_msg_type_id"]}),
+    "host_id": ({"name", "value"}, {"python.py": ["generate_host_id"], "c99.py": ["generate_host_id"], "javascript.py": ["generate_host_id"], "matlab.py": ["generate_host_id"]}),
+    "module_id": ({"name", "value"}, {"python.py": ["generate_module_id"], "c99.py": ["generate_module_id"], "javascript.py": ["generate_module_id"], "matlab.py": ["generate_module_id"]}),
+    "type_alias": ({"name", "type_name"}, {"python.py": ["generate_type_alias"], "c99.py": ["generate_type_alias"], "javascript.py": ["generate_type_alias"], "matlab.py": ["generate_type_alias"]}),
+    "struct": ({"name", "fields"}, {"python.py": ["generate_struct"], "c99.py": ["generate_struct"], "javascript.py": ["generate_obj"], "matlab.py": ["generate_struct"]}),
+    "message": ({"name", "fields"}, {"python.py": ["generate_msg_def"], "c99.py": ["generate_struct"], "javascript.py": ["generate_obj"], "matlab.py": ["generate_struct"]}),
+}
+FIELD_REQUIRED = {"name", "type_name", "length"}
+
+
+def _attr_reads(fdef):
+    """attributes read on the first non-self parameter, and on loop variables over <param>.fields"""
+    params = [a.arg for a in fdef.args.args if a.arg != "self"]
+    if not params:
+        return None, None, set()
+    item = params[0]
+    on_item, on_field, anywhere = set(), set(), set()
+    fieldvars = set()
+    for n in ast.walk(fdef):
+        it = None
+        if isinstance(n, ast.For):
+            it, tgt = n.iter, n.target
+        elif isinstance(n, ast.comprehension):
+            it, tgt = n.iter, n.target
+        if it is not None:
+            # for field in item.fields / enumerate(item.fields)
+            src_ = ast.unparse(it)
+            if f"{item}.fields" in src_:
+                for t in ast.walk(tgt):
+                    if isinstance(t, ast.Name):
+                        fieldvars.add(t.id)
+    for n in ast.walk(fdef):
+        if isinstance(n, ast.Attribute):
+            anywhere.add(n.attr)
+            if isinstance(n.value, ast.Name):
+                if n.value.id == item:
+                    on_item.add(n.attr)
+                elif n.value.id in fieldvars:
+                    on_field.add(n.attr)
+    return on_item, on_field, anywhere
+
+
+def check_emitters(res, repo):
+    base = os.path.join(repo, "src", "pyrtma", "compilers")
+    funcs = {}
+    for fn in ("python.py", "c99.py", "javascript.py", "matlab.py"):
+        try:
+            tree = ast.parse(open(os.path.join(base, fn)).read())
+        except (OSError, SyntaxError) as ex:
+            res["crashes"].append(f"{fn}: {ex}")
+            return
+        funcs[fn] = {n.name: n for n in ast.walk(tree) if isinstance(n, ast.FunctionDef)}
+    for kind, (required, where) in EMITTERS.items():
+        for fn, cands in where.items():
+            name = f"C04/emit/{kind}/{fn}"
+            res["obligations"] += 1
+            fd = next((funcs[fn][c] for c in cands if c in funcs[fn]), None)
+            if fd is None:
+                res["undecided"].append(f"{name}: emitter {cands} not found (source changed shape)")
+                continue
+            on_item, on_field, anywhere = _attr_reads(fd)
+            if on_item is None:
+                res["undecided"].append(f"{name}: emitter has no item parameter")
+                continue
+            missing = required - on_item
+            fmissing = (FIELD_REQUIRED - on_field) if kind in ("struct", "message") else set()
+            gone = {a for a in missing | fmissing if a not in anywhere}
+            if gone:
+                res["open"][name] = dict(kind="ensures", status="refuted", reason="attribute agreement", candidates=[],
+                                         text=f"{fn}:{fd.name} prints a {kind} without reading {sorted(gone)} of the parser model (reads {sorted(on_item)}"
+                                              + (f", per field {sorted(on_field)}" if kind in ("struct", "message") else "") + f"); the other outputs are printed from {sorted(required)}")
+            elif missing or fmissing:
+                res["undecided"].append(f"{name}: {sorted(missing | fmissing)} is read, but not on the item parameter / field loop variable")
+            else:
+                res["discharged"] += 1
+                res["discharged_names"].append(name)
+                res["by_backend"]["attribute-flow"] = res["by_backend"].get("attribute-flow", 0) + 1
+                if sum(1 for s_ in res["samples"] if s_.get("backend") == "attribute-flow") < 2:
+                    res["samples"].append(dict(obligation=name, goal=f"{fd.name} reads {sorted(required)} of the model item" + (f" and {sorted(FIELD_REQUIRED)} of every field" if kind in ("struct", "message") else ""),
+                                               backend="attribute-flow"))
